@@ -14,6 +14,37 @@ structure TreeOk (t : Tree) : Prop where
   onlyRoot : OnlyRoot t
   rootWin : RootWin t
 
+def ChildrenNodup (t : Tree) : Prop := ∀ (cur : Id) (w : Win), t.wins[cur]? = some w → w.children.Nodup
+def NoSelfParent (t : Tree) : Prop := ∀ (x : Id) (w : Win), t.wins[x]? = some w → w.parent ≠ some x
+
+theorem struct_congr_wins {t t' : Tree} (h : t'.wins = t.wins) (h1 : ChildrenNodup t) (h2 : NoSelfParent t) :
+    ChildrenNodup t' ∧ NoSelfParent t' :=
+  ⟨fun cur w hw => h1 cur w (by rw [← h]; exact hw), fun x w hw => h2 x w (by rw [← h]; exact hw)⟩
+
+theorem struct_sameBut {t t' : Tree} {id : Id} (h : SameBut t t' id) (h1 : ChildrenNodup t) (h2 : NoSelfParent t) :
+    ChildrenNodup t' ∧ NoSelfParent t' := by
+  constructor
+  · intro cur w' hw'
+    obtain ⟨w, hw, hc⟩ := noVis_some (sameBut_noVis h cur).symm hw'
+    simp only [coreNoVis, Prod.mk.injEq] at hc
+    rw [← hc.2.2.1]; exact h1 cur w hw
+  · intro x w' hw'
+    obtain ⟨w, hw, hc⟩ := noVis_some (sameBut_noVis h x).symm hw'
+    simp only [coreNoVis, Prod.mk.injEq] at hc
+    rw [← hc.2.2.2.1]; exact h2 x w hw
+
+theorem struct_sameButG {t t' : Tree} {id : Id} (h : SameButG t t' id) (h1 : ChildrenNodup t) (h2 : NoSelfParent t) :
+    ChildrenNodup t' ∧ NoSelfParent t' := by
+  constructor
+  · intro cur w' hw'
+    obtain ⟨w, hw, hc, _⟩ := sameButG_struct (sameButG_symm h) cur hw'
+    simp only [coreSelf, Prod.mk.injEq] at hc
+    rw [← hc.2.1]; exact h1 cur w hw
+  · intro x w' hw'
+    obtain ⟨w, hw, hc, _⟩ := sameButG_struct (sameButG_symm h) x hw'
+    simp only [coreSelf, Prod.mk.injEq] at hc
+    rw [← hc.2.2.1]; exact h2 x w hw
+
 /-- `TreeOk`, `RootOk` and `RootsPositive` only read `core`. -/
 theorem treeOk_congr_core {t t' : Tree} (h : ∀ x : Id, (t'.wins[x]?).map core = (t.wins[x]?).map core) (hok : TreeOk t) : TreeOk t' := by
   have hsym : ∀ x, (t.wins[x]?).map core = (t'.wins[x]?).map core := fun x => (h x).symm
